@@ -170,9 +170,14 @@ def peek(fut):
 
 
 class _Batch(BatchBase):
-    def __init__(self, work):
+    def __init__(self, work, on_cancel=None):
         BatchBase.__init__(self)
         self.work = work
+        self.on_cancel = on_cancel
+
+    def _cancel(self):
+        if self.on_cancel is not None:
+            self.on_cancel(self)
 
     def _try_switch_active_batch(self):
         pass
@@ -201,6 +206,8 @@ class _Subscribers(object):
         self.log = log
         self.sinking = sinking
         self.tag = tag       # KBatch: which future of the case these subscribers belong to (0 = batch, i = item i)
+        self.futs = None     # KBatch: the futures of the case (CbSet targets); None = single-future family
+        self.sets = None     # KBatch: shared record of the cross-future sets that returned normally
         self.reg = []
         self.events = []     # what the subscribers did to the subscription list while being called
         self.raises = []     # which subscriber raised which Exception class, during which notification
@@ -247,6 +254,21 @@ class _Subscribers(object):
         if name == "CbSeq":
             self.script(f, sid, a[0], nlog)
             self.script(f, sid, a[1], nlog)
+            return
+        if name == "CbSet":
+            # completes another future of the case from inside the notification (single-future families: the
+            # only future there is - the one being notified)
+            t, o, guarded = a
+            target = f if self.futs is None else self.futs[t]        # IndexError: no such future - the callback raises
+            if guarded == "true" and target.is_computed():
+                return
+            (k2, v), = o.items()
+            if k2 == "Ok":
+                target.set_value(pyval(v[0]))
+            else:
+                target.set_error(VErr(v[0]))
+            if self.sets is not None:
+                self.sets.append({"fut": self.tag, "by": sid, "target": t, "o": {k2: [v[0]]}})
             return
         raise ValueError(name)
 
@@ -412,13 +434,25 @@ def run_susp(c):
 def run_batch(c):
     """KBatch (model: BatchFut.v): a BatchBase with BatchItemBase items, every future with its own scripted
     subscribers; the flush body goes over the items and sets what the case says, then returns / raises."""
-    _, items, fin, ops = c["args"]
+    _, items, fin, ops = c["args"][:4]
+    cancel_script = c["args"][4] if len(c["args"]) > 4 else []
     asynq_pkg.scheduler.reset()
     runs = [0]
     log = []
     inner_res = []
     points = []
     provlog = []
+
+    def on_cancel(batch):
+        # a _cancel() override that fills items in (well-behaved: tests is_computed() first)
+        for ent in cancel_script:
+            i, o = ent[""][0]["n"], ent[""][1]
+            if i < len(its) and not its[i].is_computed():
+                (k, a), = o.items()
+                if k == "Ok":
+                    its[i].set_value(pyval(a[0]))
+                else:
+                    its[i].set_error(VErr(a[0]))
 
     def work(batch):
         runs[0] += 1
@@ -445,7 +479,7 @@ def run_batch(c):
                 point("post", "in", j, name, {"t": idx + 1, "r": r})
         return _end_computation(fin, provlog, batch=True)    # the batch's value is None whatever _flush returns
 
-    batch = _Batch(work)
+    batch = _Batch(work, on_cancel)
     its = []
     acts = []
     regs = [_Subscribers(log, tag=0)]
@@ -459,10 +493,14 @@ def run_batch(c):
         for sb in subs:
             reg.subscribe(it, sb[""][0], sb[""][1])
     futs = [batch] + its
+    xsets = []
+    for r_ in regs:
+        r_.futs = futs
+        r_.sets = xsets
 
     def point(when, lvl, i, name, extra=None):
         d = {"when": when, "lvl": lvl, "i": i, "op": name, "st": [peek(f) for f in futs], "nlog": len(log),
-             "subs": [r.ids() for r in regs], "runs": runs[0], "nprov": len(provlog)}
+             "subs": [r.ids() for r in regs], "runs": runs[0], "nprov": len(provlog), "nsets": len(xsets)}
         if extra:
             d.update(extra)
         points.append(d)
@@ -487,8 +525,6 @@ def run_batch(c):
                 r = {"RRaise": [E_SKIPPED]}
             elif name == "OIsComputed":
                 r = {"RBool": ["true" if f.is_computed() else "false"]}
-            elif name in ("OValue", "OCall", "OError") and t > 0 and batch.is_computed() and not f.is_computed():
-                r = {"RRaise": [E_SKIPPED]}    # (only reachable if the batch's completion left an item behind)
             elif name == "OValue":
                 r = {"RVal": [treeval(f.value())]}
             elif name == "OCall":
@@ -496,14 +532,14 @@ def run_batch(c):
             elif name == "OError":
                 e = f.error()
                 r = "RNoError" if e is None else {"RErr": [exn_id(e)]}
-            elif t == 0 and name == "OSetValue":
+            elif name == "OSetValue":
                 f.set_value(pyval(a[0]))
                 r = "RUnit"
-            elif t == 0 and name == "OSetError":
+            elif name == "OSetError":
                 f.set_error(VErr(a[0]))
                 r = "RUnit"
-            elif t == 0 and name == "OSubscribe":
-                regs[0].subscribe(f, a[0], a[1])
+            elif name == "OSubscribe":
+                regs[t].subscribe(f, a[0], a[1])
                 r = "RUnit"
             else:
                 r = {"RRaise": [E_SKIPPED]}      # not part of this family: not issued
@@ -520,7 +556,7 @@ def run_batch(c):
     events = [dict(e, fut=r.tag) for r in regs for e in r.events]
     raises = [dict(e, fut=r.tag) for r in regs for e in r.raises]
     return {"out": {"": [res, inner_res, log, runs[0], regs[0].final(batch), finals]}, "points": points, "prov": provlog,
-            "events": events, "raises": raises}
+            "events": events, "raises": raises, "sets": xsets}
 
 
 def run_case(c):
